@@ -127,3 +127,55 @@ def dominates_in_body(a_stmt, b_stmt, body):
     """Both are direct children of `body`; a precedes b."""
     ids = [id(s) for s in body]
     return id(a_stmt) in ids and id(b_stmt) in ids and ids.index(id(a_stmt)) < ids.index(id(b_stmt))
+
+
+# ------------------------------------------------------------------------------------------------------
+# alpha-renaming-insensitive text: local names -> v0, v1, ... in order of first binding occurrence.
+# Works on a re-parsed copy (ast.parse(ast.unparse(x))): the repository trees carry _parent links and are never mutated.
+# ------------------------------------------------------------------------------------------------------
+class _Canon(ast.NodeTransformer):
+    def __init__(self, keep=()):
+        self.map = {}
+        self.keep = set(keep) | {"self", "cls", "True", "False", "None"}
+
+    def bind(self, name):
+        if name in self.keep:
+            return name
+        if name not in self.map:
+            self.map[name] = f"v{len(self.map)}"
+        return self.map[name]
+
+    def collect(self, tree):
+        for n in ast.walk(tree):
+            if isinstance(n, ast.arg):
+                self.bind(n.arg)
+            elif isinstance(n, ast.Name) and isinstance(n.ctx, (ast.Store, ast.Del)):
+                self.bind(n.id)
+
+    def visit_Name(self, n):
+        if n.id in self.map:
+            n.id = self.map[n.id]
+        return n
+
+    def visit_arg(self, n):
+        if n.arg in self.map:
+            n.arg = self.map[n.arg]
+        return n
+
+
+def canon(nodes, keep=()):
+    """Canonical text of a statement list / node: docstrings dropped, bound local names renamed positionally."""
+    if isinstance(nodes, ast.AST):
+        nodes = [nodes]
+    src = "\n".join(ast.unparse(n) for n in nodes)
+    tree = ast.parse(src)
+    body = [s for s in tree.body if not (isinstance(s, ast.Expr) and isinstance(s.value, ast.Constant) and isinstance(s.value.value, str))]
+    tree.body = body
+    c = _Canon(keep)
+    c.collect(tree)
+    c.visit(tree)
+    return [ast.unparse(s) for s in tree.body]
+
+
+def canon_src(src, keep=()):
+    return canon(ast.parse(src).body, keep)
